@@ -3,43 +3,553 @@ From Coq Require Import List Arith Bool Lia.
 From Compute Require Import Base.Ops Base.ListMat Model.Reduce Model.MatMul Spec.MatMul.
 Import ListNotations.
 
+(** ** Generic list facts *)
+Section ListAux.
+  Context {A : Type}.
+
+  Lemma map2_length {B C} (f : A -> B -> C) l1 l2 :
+    length (map2 f l1 l2) = Nat.min (length l1) (length l2).
+  Proof. revert l2; induction l1 as [|a l1 IH]; intros [|b l2]; simpl; auto. Qed.
+
+  Lemma nth_map2 {B C} (f : A -> B -> C) l1 l2 i d d1 d2 :
+    i < length l1 -> i < length l2 ->
+    nth i (map2 f l1 l2) d = f (nth i l1 d1) (nth i l2 d2).
+  Proof.
+    revert l2 i; induction l1 as [|a l1 IH]; intros [|b l2] [|i]; simpl; intros H1 H2; try lia; auto.
+    apply IH; lia.
+  Qed.
+
+  Lemma map2_map_r {B C} (f : A -> B -> C) (h : A -> B) l :
+    map2 f l (map h l) = map (fun a => f a (h a)) l.
+  Proof. induction l as [|a l IH]; simpl; congruence. Qed.
+
+  Lemma mapi_from_length {B} (f : nat -> A -> B) l s : length (mapi_from s f l) = length l.
+  Proof. revert s; induction l as [|a l IH]; intros s; simpl; auto. Qed.
+
+  Lemma nth_mapi_from {B} (f : nat -> A -> B) l s i d d' :
+    i < length l -> nth i (mapi_from s f l) d = f (s + i) (nth i l d').
+  Proof.
+    revert s i; induction l as [|a l IH]; intros s [|i]; simpl; intros H; try lia.
+    - f_equal; lia.
+    - rewrite (IH (S s) i) by lia. f_equal; lia.
+  Qed.
+
+  Lemma flat_map_single (l : list A) : flat_map (fun x => [x]) l = l.
+  Proof. induction l as [|a l IH]; simpl; congruence. Qed.
+
+  Lemma flat_map_if {X} (b : bool) (f : X -> list A) (l : list X) :
+    flat_map (fun x => if b then f x else []) l = if b then flat_map f l else [].
+  Proof. destruct b; auto. induction l as [|a l IH]; simpl; auto. Qed.
+
+  Lemma flat_map_nil {X} (f : X -> list A) (l : list X) :
+    (forall x, In x l -> f x = []) -> flat_map f l = [].
+  Proof.
+    induction l as [|a l IH]; simpl; intros H; auto.
+    rewrite (H a) by auto. rewrite IH; auto.
+  Qed.
+
+  Lemma nth_nil (i : nat) (d : A) : nth i [] d = d.
+  Proof. destruct i; reflexivity. Qed.
+End ListAux.
+
+(** the only [x] of [seq s len] with [P x = true] is [q] *)
+Lemma flat_map_seq_one {A} (P : nat -> bool) (X : list A) s len q :
+  s <= q < s + len -> (forall x, x <> q -> P x = false) -> P q = true ->
+  flat_map (fun x => if P x then X else []) (seq s len) = X.
+Proof.
+  intros Hq Hne Hq1.
+  replace len with ((q - s) + S (s + len - S q)) by lia.
+  rewrite seq_app, flat_map_app. simpl.
+  replace (s + (q - s)) with q by lia. rewrite Hq1.
+  rewrite !flat_map_nil; [apply app_nil_r | |].
+  - intros x Hx. apply in_seq in Hx. rewrite Hne by lia. reflexivity.
+  - intros x Hx. apply in_seq in Hx. rewrite Hne by lia. reflexivity.
+Qed.
+
+(** the k-blocks of [matmul_blocked] concatenate to [0..l) *)
+Lemma kblocks_concat l bs : 1 <= bs -> flat_map (kblock l bs) (seq 0 (l / bs + 1)) = seq 0 l.
+Proof.
+  intros Hbs.
+  assert (Hq : bs * (l / bs) <= l) by (apply Nat.mul_div_le; lia).
+  assert (Hq' : l < bs * S (l / bs)) by (apply Nat.mul_succ_div_gt; lia).
+  assert (Hfull : forall m, m <= l / bs -> flat_map (kblock l bs) (seq 0 m) = seq 0 (m * bs)).
+  { induction m as [|m IH]; intros Hm; [reflexivity|].
+    rewrite seq_S, flat_map_app, IH by lia. simpl. rewrite app_nil_r.
+    assert (S m * bs <= l / bs * bs) by (apply Nat.mul_le_mono_r; lia).
+    unfold kblock. replace (Nat.min (m * bs + bs) l - m * bs) with bs by lia.
+    rewrite <- seq_app. f_equal. lia. }
+  rewrite Nat.add_1_r, seq_S, flat_map_app, Hfull by lia. simpl. rewrite app_nil_r.
+  unfold kblock. replace (Nat.min (l / bs * bs + bs) l - l / bs * bs) with (l - l / bs * bs) by lia.
+  rewrite <- seq_app. f_equal. lia.
+Qed.
+
+(** column [j < n] lies in exactly the j-block number [j / bs] *)
+Definition in_jblock (bs n j jj : nat) : bool :=
+  (jj * bs <=? j) && (j <? Nat.min (jj * bs + bs) n).
+
+Lemma in_jblock_true bs n j : 1 <= bs -> j < n -> in_jblock bs n j (j / bs) = true.
+Proof.
+  intros Hbs Hj. unfold in_jblock.
+  assert (bs * (j / bs) <= j) by (apply Nat.mul_div_le; lia).
+  assert (j < bs * S (j / bs)) by (apply Nat.mul_succ_div_gt; lia).
+  apply andb_true_iff; split; [apply Nat.leb_le | apply Nat.ltb_lt]; lia.
+Qed.
+
+Lemma in_jblock_false bs n j jj : 1 <= bs -> jj <> j / bs -> in_jblock bs n j jj = false.
+Proof.
+  intros Hbs Hne. unfold in_jblock.
+  assert (bs * (j / bs) <= j) by (apply Nat.mul_div_le; lia).
+  assert (j < bs * S (j / bs)) by (apply Nat.mul_succ_div_gt; lia).
+  apply andb_false_iff.
+  destruct (Nat.lt_ge_cases jj (j / bs)) as [Hlt|Hge].
+  - right. apply Nat.ltb_ge.
+    assert (S jj * bs <= j / bs * bs) by (apply Nat.mul_le_mono_r; lia). lia.
+  - left. apply Nat.leb_gt.
+    assert (S (j / bs) * bs <= jj * bs) by (apply Nat.mul_le_mono_r; lia). lia.
+Qed.
+
+Lemma blocked_ks l n bs j :
+  1 <= bs -> j < n ->
+  flat_map (fun jj => flat_map (fun kk => flat_map (fun k => if in_jblock bs n j jj then [k] else [])
+                                            (kblock l bs kk)) (seq 0 (l / bs + 1)))
+           (seq 0 (n / bs + 1)) = seq 0 l.
+Proof.
+  intros Hbs Hj.
+  rewrite (flat_map_ext _ (fun jj => if in_jblock bs n j jj then seq 0 l else [])).
+  - apply (flat_map_seq_one (in_jblock bs n j) (seq 0 l) 0 (n / bs + 1) (j / bs)).
+    + assert (j / bs <= n / bs) by (apply Nat.div_le_mono; lia). lia.
+    + intros x Hx. apply in_jblock_false; auto.
+    + apply in_jblock_true; auto.
+  - intros jj. destruct (in_jblock bs n j jj).
+    + rewrite <- (kblocks_concat l bs Hbs). apply flat_map_ext. intros kk. apply flat_map_single.
+    + apply flat_map_nil. intros kk _. apply flat_map_nil. reflexivity.
+Qed.
+
+(** ** Index arithmetic of row-major flat arrays *)
+Section IndexAux.
+  Context {A : Type}.
+
+  Lemma nth_skipn_plus (l : list A) s i d : nth i (skipn s l) d = nth (s + i) l d.
+  Proof.
+    revert l; induction s as [|s IH]; intros [|a l]; simpl; auto.
+    destruct i; reflexivity.
+  Qed.
+
+  Lemma nth_firstn_lt (l : list A) n i d : i < n -> nth i (firstn n l) d = nth i l d.
+  Proof.
+    revert n i; induction l as [|a l IH]; intros [|n] [|i] H; simpl; auto; try lia.
+    apply IH; lia.
+  Qed.
+
+  Lemma nth_row_of (a : list A) nc i k d : k < nc -> nth k (row_of a nc i) d = nth (i * nc + k) a d.
+  Proof. intros H. unfold row_of. rewrite nth_firstn_lt by auto. apply nth_skipn_plus. Qed.
+
+  Lemma length_row_of (a : list A) nr nc i :
+    i < nr -> nr * nc = length a -> length (row_of a nc i) = nc.
+  Proof.
+    intros Hi Hlen. unfold row_of. rewrite firstn_length, skipn_length.
+    assert (S i * nc <= nr * nc) by (apply Nat.mul_le_mono_r; lia). lia.
+  Qed.
+
+  Lemma nth_map_seq {B} (f : nat -> B) s n i d : i < n -> nth i (map f (seq s n)) d = f (s + i).
+  Proof.
+    intros Hi. rewrite (nth_indep _ d (f 0)) by (rewrite map_length, seq_length; auto).
+    rewrite map_nth, seq_nth by auto. reflexivity.
+  Qed.
+
+  Lemma unflatten_length (a : list A) nr nc : length (unflatten a nr nc) = nr.
+  Proof. unfold unflatten. rewrite map_length, seq_length. reflexivity. Qed.
+
+  Lemma nth_unflatten (a : list A) nr nc i : i < nr -> nth i (unflatten a nr nc) [] = row_of a nc i.
+  Proof. intros Hi. unfold unflatten. rewrite nth_map_seq by auto. reflexivity. Qed.
+
+  Lemma ent_unflatten d (a : list A) nr nc i k :
+    i < nr -> k < nc -> ent d (unflatten a nr nc) i k = nth (i * nc + k) a d.
+  Proof. intros Hi Hk. unfold ent. rewrite nth_unflatten by auto. apply nth_row_of; auto. Qed.
+
+  Lemma row_len_unflatten (a : list A) nr nc i :
+    i < nr -> nr * nc = length a -> length (nth i (unflatten a nr nc) []) = nc.
+  Proof. intros Hi Hlen. rewrite nth_unflatten by auto. apply (length_row_of a nr); auto. Qed.
+
+  Lemma transpose_rows_length d (M : list (list A)) nc : length (transpose_rows d M nc) = nc.
+  Proof. unfold transpose_rows. rewrite map_length, seq_length. reflexivity. Qed.
+
+  Lemma nth_transpose_rows d (M : list (list A)) nc i :
+    i < nc -> nth i (transpose_rows d M nc) [] = col_of d M i.
+  Proof. intros Hi. unfold transpose_rows. rewrite nth_map_seq by auto. reflexivity. Qed.
+
+  Lemma row_len_transpose d (M : list (list A)) nc i :
+    i < nc -> length (nth i (transpose_rows d M nc) []) = length M.
+  Proof. intros Hi. rewrite nth_transpose_rows by auto. unfold col_of. apply map_length. Qed.
+
+  Lemma ent_transpose d (M : list (list A)) nc i k :
+    i < nc -> ent d (transpose_rows d M nc) i k = ent d M k i.
+  Proof.
+    intros Hi. unfold ent. rewrite nth_transpose_rows by auto. unfold col_of.
+    transitivity (nth k (map (fun r => nth i r d) M) ((fun r => nth i r d) [])).
+    - f_equal. symmetry. apply nth_nil.
+    - apply (map_nth (fun r => nth i r d)).
+  Qed.
+
+  Lemma concat_rows_length (M : list (list A)) n :
+    (forall i, i < length M -> length (nth i M []) = n) -> length (concat M) = length M * n.
+  Proof.
+    induction M as [|r M IH]; intros H; simpl; auto.
+    assert (Hr : length r = n) by (apply (H 0); simpl; lia).
+    rewrite app_length, IH, Hr; [reflexivity|].
+    intros i Hi. apply (H (S i)). simpl; lia.
+  Qed.
+
+  Lemma nth_concat_rows (M : list (list A)) n i j d :
+    (forall i, i < length M -> length (nth i M []) = n) -> i < length M -> j < n ->
+    nth (i * n + j) (concat M) d = nth j (nth i M []) d.
+  Proof.
+    revert i; induction M as [|r M IH]; intros i H Hi Hj; simpl in Hi; [lia|].
+    assert (Hr : length r = n) by (apply (H 0); simpl; lia).
+    assert (HM : forall i, i < length M -> length (nth i M []) = n)
+      by (intros i' Hi'; apply (H (S i')); simpl; lia).
+    destruct i as [|i]; simpl.
+    - apply app_nth1. lia.
+    - rewrite app_nth2 by lia. rewrite <- (IH i) by (auto; lia). f_equal. lia.
+  Qed.
+
+  Lemma fold_left_ext_in {B} (f g : A -> B -> A) l a :
+    (forall a b, In b l -> f a b = g a b) -> fold_left f l a = fold_left g l a.
+  Proof.
+    revert a; induction l as [|b l IH]; intros a H; simpl; auto.
+    rewrite (H a b) by (left; auto). apply IH. intros a' b' Hb'. apply H. right; auto.
+  Qed.
+End IndexAux.
+
+(** ** [dims] through [is_matrix] *)
+Lemma is_matrix_mod len nr :
+  is_matrix len nr = if (0 <? nr) && (len mod nr =? 0) then Some (len / nr) else None.
+Proof.
+  unfold is_matrix. destruct nr as [|r]; [reflexivity|].
+  change (0 <? S r) with true. cbn [andb].
+  pose proof (Nat.div_mod len (S r)) as Hdm.
+  destruct (Nat.eqb_spec (S r * (len / S r)) len), (Nat.eqb_spec (len mod S r) 0); auto; exfalso; lia.
+Qed.
+
+Lemma is_matrix_some len nr nc : is_matrix len nr = Some nc -> 0 < nr /\ nr * nc = len.
+Proof.
+  unfold is_matrix. destruct nr as [|r]; [discriminate|].
+  destruct (Nat.eqb_spec (S r * (len / S r)) len) as [E|E]; [|discriminate].
+  intros [= <-]. split; [lia | exact E].
+Qed.
+
+Lemma is_matrix_mul nr nc : 0 < nr -> is_matrix (nr * nc) nr = Some nc.
+Proof.
+  intros H. unfold is_matrix. destruct nr as [|r]; [lia|].
+  replace (S r * nc / S r) with nc by (rewrite Nat.mul_comm, Nat.div_mul; lia).
+  rewrite Nat.eqb_refl. reflexivity.
+Qed.
+
+Definition dims' (la lb ra rb : nat) (ta tb : bool) : option (nat * nat * nat * nat * nat) :=
+  let* ca := is_matrix la ra in
+  let* cb := is_matrix lb rb in
+  let* _ := guard ((if ta then ra else ca) =? (if tb then cb else rb)) in
+  Some (ca, cb, if ta then ca else ra, if ta then ra else ca, if tb then rb else cb).
+
+Lemma dims_is_matrix la lb ra rb ta tb : dims la lb ra rb ta tb = dims' la lb ra rb ta tb.
+Proof.
+  unfold dims, dims'. rewrite !is_matrix_mod.
+  destruct (0 <? ra), (0 <? rb), (la mod ra =? 0), (lb mod rb =? 0); cbn [andb bind]; try reflexivity.
+  destruct ta, tb; cbn [bind guard];
+    match goal with |- context [?x =? ?y] => destruct (x =? y) end; reflexivity.
+Qed.
+
 Section Proofs.
   Context {T : Type} (O : Ops T).
   Local Notation z := (zero O).
+
+  (** one accumulation step of entry [j] of a row: [s + a_k * b_kj] *)
+  Definition step (arow : list T) (B : list (list T)) (j : nat) (s : T) (k : nat) : T :=
+    add O s (mul O (nth k arow z) (nth j (nth k B []) z)).
+
+  (** a loop whose body adds to entry [j] the terms [K x] adds, in total, the terms
+      [flat_map K xs] (in order) *)
+  Lemma fold_rows_nth {X} (F : X -> list T -> list T) (K : X -> list nat) arow B j n xs :
+    (forall x c, In x xs -> length c = n ->
+       length (F x c) = n /\
+       (j < n -> nth j (F x c) z = fold_left (step arow B j) (K x) (nth j c z))) ->
+    forall c, length c = n ->
+      length (fold_left (fun c x => F x c) xs c) = n /\
+      (j < n -> nth j (fold_left (fun c x => F x c) xs c) z =
+                fold_left (step arow B j) (flat_map K xs) (nth j c z)).
+  Proof.
+    induction xs as [|x xs IH]; intros HF c Hc; simpl.
+    - auto.
+    - destruct (HF x c (or_introl eq_refl) Hc) as [HL HN].
+      destruct (IH (fun x' c' Hin => HF x' c' (or_intror Hin)) (F x c) HL) as [HL' HN'].
+      split; auto. intros Hj. rewrite HN', HN by auto. rewrite fold_left_app. reflexivity.
+  Qed.
+
+  Lemma axpy_row_nth arow B k j n c :
+    length (nth k B []) = n -> length c = n ->
+    length (axpy_row O (nth k arow z) (nth k B []) c) = n /\
+    (j < n -> nth j (axpy_row O (nth k arow z) (nth k B []) c) z =
+              fold_left (step arow B j) [k] (nth j c z)).
+  Proof.
+    intros HB Hc; unfold axpy_row; split.
+    - rewrite map2_length; lia.
+    - intros Hj. rewrite (nth_map2 _ _ _ _ _ z z) by lia. reflexivity.
+  Qed.
+
+  Lemma row_times_nth arow B ks j n c :
+    (forall k, In k ks -> length (nth k B []) = n) -> length c = n ->
+    length (row_times O arow B ks c) = n /\
+    (j < n -> nth j (row_times O arow B ks c) z = fold_left (step arow B j) ks (nth j c z)).
+  Proof.
+    intros HB Hc. unfold row_times.
+    destruct (fold_rows_nth (fun k c => axpy_row O (nth k arow z) (nth k B []) c)
+                            (fun k => [k]) arow B j n ks) with (c := c) as [HL HN]; auto.
+    - intros k c' Hin Hc'. apply axpy_row_nth; auto.
+    - split; auto. intros Hj. rewrite HN by auto. rewrite flat_map_single. reflexivity.
+  Qed.
+
+  Lemma nth_map_row {X} (f : list X -> list T) (A : list (list X)) i :
+    i < length A -> nth i (map f A) [] = f (nth i A []).
+  Proof.
+    intros Hi. rewrite (nth_indep _ [] (f [])) by (rewrite map_length; auto). apply map_nth.
+  Qed.
+
+  Lemma seq_rows_len (B : list (list T)) l n :
+    (forall k, k < l -> length (nth k B []) = n) ->
+    forall k, In k (seq 0 l) -> length (nth k B []) = n.
+  Proof. intros H k Hk. apply in_seq in Hk. apply H; lia. Qed.
 
   (** the i-k-j nest computes, in every entry, the left-to-right sum over k *)
   Lemma mm_rows_entry A B l n i j :
     i < length A -> j < n -> (forall k, k < l -> length (nth k B []) = n) ->
     ent z (mm_rows O A B l n) i j =
     sumk O (fun k => mul O (ent z A i k) (ent z B k j)) l.
-  Admitted.
+  Proof.
+    intros Hi Hj HB. unfold ent, mm_rows. rewrite nth_map_row by auto.
+    destruct (row_times_nth (nth i A []) B (seq 0 l) j n (repeat z n)) as [_ HN].
+    - apply seq_rows_len; auto.
+    - apply repeat_length.
+    - rewrite HN by auto. rewrite nth_repeat. reflexivity.
+  Qed.
 
   Lemma mm_rows_shape A B l n :
     (forall k, k < l -> length (nth k B []) = n) ->
     length (mm_rows O A B l n) = length A /\
     forall i, i < length A -> length (nth i (mm_rows O A B l n) []) = n.
-  Admitted.
+  Proof.
+    intros HB. unfold mm_rows. split; [apply map_length|].
+    intros i Hi. rewrite nth_map_row by auto.
+    apply (row_times_nth (nth i A []) B (seq 0 l) 0 n (repeat z n)).
+    - apply seq_rows_len; auto.
+    - apply repeat_length.
+  Qed.
+
+  (** *** the blocked nest, one row at a time *)
+  Lemma axpy_range_nth arow B k j lo hi c :
+    length (axpy_range O (nth k arow z) (nth k B []) c lo hi) = length c /\
+    (j < length c ->
+     nth j (axpy_range O (nth k arow z) (nth k B []) c lo hi) z =
+     fold_left (step arow B j) (if (lo <=? j) && (j <? hi) then [k] else []) (nth j c z)).
+  Proof.
+    unfold axpy_range, mapi. split; [apply mapi_from_length|].
+    intros Hj. rewrite (nth_mapi_from _ _ _ _ _ z) by auto. simpl.
+    destruct ((lo <=? j) && (j <? hi)); reflexivity.
+  Qed.
+
+  Definition blocked_row (arow : list T) (B : list (list T)) (l n bs : nat) (c : list T) : list T :=
+    fold_left (fun c jj =>
+      fold_left (fun c kk =>
+        fold_left (fun c k => axpy_range O (nth k arow z) (nth k B []) c
+                                (jj * bs) (Nat.min (jj * bs + bs) n))
+                  (kblock l bs kk) c)
+        (seq 0 (l / bs + 1)) c)
+      (seq 0 (n / bs + 1)) c.
+
+  Lemma blocked_row_nth arow B l n bs j c :
+    1 <= bs -> length c = n ->
+    length (blocked_row arow B l n bs c) = n /\
+    (j < n -> nth j (blocked_row arow B l n bs c) z = fold_left (step arow B j) (seq 0 l) (nth j c z)).
+  Proof.
+    intros Hbs Hc. unfold blocked_row.
+    destruct (fold_rows_nth
+      (fun jj c => fold_left (fun c kk =>
+          fold_left (fun c k => axpy_range O (nth k arow z) (nth k B []) c
+                                  (jj * bs) (Nat.min (jj * bs + bs) n))
+                    (kblock l bs kk) c) (seq 0 (l / bs + 1)) c)
+      (fun jj => flat_map (fun kk => flat_map (fun k => if in_jblock bs n j jj then [k] else [])
+                                              (kblock l bs kk)) (seq 0 (l / bs + 1)))
+      arow B j n (seq 0 (n / bs + 1))) with (c := c) as [HL HN]; auto.
+    - intros jj c1 _ Hc1.
+      apply (fold_rows_nth
+        (fun kk c => fold_left (fun c k => axpy_range O (nth k arow z) (nth k B []) c
+                                  (jj * bs) (Nat.min (jj * bs + bs) n)) (kblock l bs kk) c)
+        (fun kk => flat_map (fun k => if in_jblock bs n j jj then [k] else []) (kblock l bs kk))); auto.
+      intros kk c2 _ Hc2.
+      apply (fold_rows_nth
+        (fun k c => axpy_range O (nth k arow z) (nth k B []) c (jj * bs) (Nat.min (jj * bs + bs) n))
+        (fun k => if in_jblock bs n j jj then [k] else [])); auto.
+      intros k c3 _ Hc3.
+      destruct (axpy_range_nth arow B k j (jj * bs) (Nat.min (jj * bs + bs) n) c3) as [HL3 HN3].
+      split; [congruence|]. intros Hj. apply HN3. lia.
+    - split; auto. intros Hj. rewrite HN by auto. rewrite blocked_ks by auto. reflexivity.
+  Qed.
+
+  (** rows are independent: a loop of row-wise updates is a map of per-row loops *)
+  Lemma fold_map_rows {X} (F : X -> list (list T) -> list (list T))
+        (g : X -> list T -> list T -> list T) (A : list (list T)) :
+    (forall x (h : list T -> list T), F x (map h A) = map (fun arow => g x arow (h arow)) A) ->
+    forall xs (h : list T -> list T),
+      fold_left (fun C x => F x C) xs (map h A) =
+      map (fun arow => fold_left (fun c x => g x arow c) xs (h arow)) A.
+  Proof.
+    intros HF; induction xs as [|x xs IH]; intros h; simpl; auto.
+    rewrite HF. rewrite (IH (fun arow => g x arow (h arow))). reflexivity.
+  Qed.
+
+  Lemma mm_blocked_rows_map A B l n bs :
+    mm_blocked_rows O A B l n bs = map (fun arow => blocked_row arow B l n bs (repeat z n)) A.
+  Proof.
+    unfold mm_blocked_rows, blocked_row.
+    apply (fold_map_rows
+      (fun jj C => fold_left (fun C kk =>
+          map2 (fun arow crow =>
+                  fold_left (fun c k => axpy_range O (nth k arow z) (nth k B []) c
+                                          (jj * bs) (Nat.min (jj * bs + bs) n))
+                            (kblock l bs kk) crow) A C) (seq 0 (l / bs + 1)) C)
+      (fun jj arow c => fold_left (fun c kk =>
+          fold_left (fun c k => axpy_range O (nth k arow z) (nth k B []) c
+                                  (jj * bs) (Nat.min (jj * bs + bs) n))
+                    (kblock l bs kk) c) (seq 0 (l / bs + 1)) c)
+      A) with (h := fun _ : list T => repeat z n).
+    intros jj h.
+    apply (fold_map_rows
+      (fun kk C => map2 (fun arow crow =>
+                  fold_left (fun c k => axpy_range O (nth k arow z) (nth k B []) c
+                                          (jj * bs) (Nat.min (jj * bs + bs) n))
+                            (kblock l bs kk) crow) A C)
+      (fun kk arow c => fold_left (fun c k => axpy_range O (nth k arow z) (nth k B []) c
+                                  (jj * bs) (Nat.min (jj * bs + bs) n))
+                    (kblock l bs kk) c) A).
+    intros kk h'. apply map2_map_r.
+  Qed.
 
   (** blocked = unblocked, bit for bit, for every block size >= 1 (no algebraic law used) *)
   Lemma mm_blocked_rows_eq A B l n bs :
     1 <= bs -> (forall k, k < l -> length (nth k B []) = n) ->
     mm_blocked_rows O A B l n bs = mm_rows O A B l n.
-  Admitted.
+  Proof.
+    intros Hbs HB. rewrite mm_blocked_rows_map. unfold mm_rows.
+    apply map_ext. intros arow.
+    assert (Hr : length (repeat z n) = n) by apply repeat_length.
+    assert (HB' := seq_rows_len B l n HB).
+    apply (nth_ext _ _ z z).
+    - destruct (blocked_row_nth arow B l n bs 0 (repeat z n) Hbs Hr) as [H1 _].
+      destruct (row_times_nth arow B (seq 0 l) 0 n (repeat z n) HB' Hr) as [H2 _]. congruence.
+    - intros j Hj.
+      destruct (blocked_row_nth arow B l n bs j (repeat z n) Hbs Hr) as [H1 N1].
+      destruct (row_times_nth arow B (seq 0 l) j n (repeat z n) HB' Hr) as [H2 N2].
+      rewrite N1, N2 by lia. reflexivity.
+  Qed.
+
+  (** *** flat arrays: operands, conformability, entries *)
+  Lemma operands_spec a b ra rb ta tb :
+    match dims (length a) (length b) ra rb ta tb with
+    | None => operands O a b ra rb ta tb = None
+    | Some (ca, cb, m, l, n) =>
+        exists A B, operands O a b ra rb ta tb = Some (A, B, l, n) /\
+          length A = m /\
+          (forall k, k < l -> length (nth k B []) = n) /\
+          (forall i k, i < m -> k < l -> ent z A i k = opA O a ca ta i k) /\
+          (forall k j, k < l -> j < n -> ent z B k j = opB O b cb tb k j)
+    end.
+  Proof.
+    rewrite dims_is_matrix. unfold dims', operands. cbv zeta.
+    destruct (is_matrix (length a) ra) as [ca|] eqn:Ha; cbn [bind]; [|reflexivity].
+    destruct (is_matrix (length b) rb) as [cb|] eqn:Hb; cbn [bind]; [|reflexivity].
+    destruct (Nat.eqb_spec (if ta then ra else ca) (if tb then cb else rb)) as [Hg|Hg];
+      cbn [guard bind]; [|reflexivity].
+    apply is_matrix_some in Ha, Hb. destruct Ha as [Hra Ha], Hb as [Hrb Hb].
+    eexists; eexists; split; [reflexivity|].
+    split; [|split; [|split]].
+    - destruct ta; [apply transpose_rows_length | apply unflatten_length].
+    - intros k Hk. destruct tb.
+      + rewrite row_len_transpose by lia. apply unflatten_length.
+      + apply row_len_unflatten; auto. lia.
+    - intros i k Hi Hk. unfold opA. destruct ta.
+      + rewrite ent_transpose by auto. apply ent_unflatten; auto.
+      + apply ent_unflatten; auto.
+    - intros k j Hk Hj. unfold opB. destruct tb.
+      + rewrite ent_transpose by lia. apply ent_unflatten; auto. lia.
+      + apply ent_unflatten; auto. lia.
+  Qed.
+
+  Lemma sumk_ext f g l : (forall k, k < l -> f k = g k) -> sumk O f l = sumk O g l.
+  Proof.
+    intros H. unfold sumk. apply fold_left_ext_in. intros s k Hk.
+    apply in_seq in Hk. rewrite H by lia. reflexivity.
+  Qed.
+
+  Lemma matmul_nt_spec a b ra rb ta tb :
+    match dims (length a) (length b) ra rb ta tb with
+    | None => matmul_nt O a b ra rb ta tb = None
+    | Some (ca, cb, m, l, n) =>
+        exists c, matmul_nt O a b ra rb ta tb = Some c /\
+                  is_product O false a b ca cb ta tb m l n c
+    end.
+  Proof.
+    pose proof (operands_spec a b ra rb ta tb) as H. unfold matmul_nt.
+    destruct (dims (length a) (length b) ra rb ta tb) as [[[[[ca cb] m] l] n]|].
+    - destruct H as (A & B & Hop & HA & HB & HeA & HeB). rewrite Hop. cbn [bind].
+      eexists; split; [reflexivity|].
+      destruct (mm_rows_shape A B l n HB) as [HL HR].
+      unfold is_product, flatten. split.
+      + rewrite (concat_rows_length _ n) by (rewrite HL; exact HR). congruence.
+      + intros i j Hi Hj.
+        rewrite (nth_concat_rows _ n) by (try (rewrite HL; exact HR); lia).
+        change (ent z (mm_rows O A B l n) i j =
+                sumk O (fun k => mul O (opA O a ca ta i k) (opB O b cb tb k j)) l).
+        rewrite mm_rows_entry by (auto; lia).
+        apply sumk_ext. intros k Hk. rewrite HeA, HeB by auto. reflexivity.
+    - rewrite H. reflexivity.
+  Qed.
 
   Lemma matmul_blocked_eq_nt a b ra rb ta tb bs :
     1 <= bs -> matmul_blocked O a b ra rb ta tb bs = matmul_nt O a b ra rb ta tb.
-  Admitted.
+  Proof.
+    intros Hbs. pose proof (operands_spec a b ra rb ta tb) as H.
+    unfold matmul_blocked, matmul_nt.
+    destruct (dims (length a) (length b) ra rb ta tb) as [[[[[ca cb] m] l] n]|].
+    - destruct H as (A & B & Hop & HA & HB & HeA & HeB). rewrite Hop. cbn [bind].
+      destruct bs as [|bs']; [lia|]. cbn [Nat.eqb negb guard bind].
+      rewrite mm_blocked_rows_eq by (auto; lia). reflexivity.
+    - rewrite H. reflexivity.
+  Qed.
 
-  (** the blocked product equals the plain one for every block size; when both operands are
-      transposed the plain routine goes through (B.A)^T, so each product's factors are commuted *)
-  Lemma matmul_blocked_eq a b ra rb ta tb bs :
-    1 <= bs -> (ta && tb = true -> forall x y, mul O x y = mul O y x) ->
-    matmul_blocked O a b ra rb ta tb bs = matmul O a b ra rb ta tb.
-  Admitted.
+  Lemma transpose_spec c nr nc :
+    0 < nr -> length c = nr * nc ->
+    exists t, transpose O c nr = Some t /\ length t = nc * nr /\
+      forall i j, i < nc -> j < nr -> nth (i * nr + j) t z = nth (j * nc + i) c z.
+  Proof.
+    intros Hnr Hlen. unfold transpose. rewrite Hlen, is_matrix_mul by auto. cbn [bind].
+    eexists; split; [reflexivity|].
+    assert (HR : forall i, i < length (transpose_rows z (unflatten c nr nc) nc) ->
+                 length (nth i (transpose_rows z (unflatten c nr nc) nc) []) = nr).
+    { intros i Hi. rewrite transpose_rows_length in Hi.
+      rewrite row_len_transpose by auto. apply unflatten_length. }
+    unfold flatten. split.
+    - rewrite (concat_rows_length _ nr) by exact HR. rewrite transpose_rows_length. reflexivity.
+    - intros i j Hi Hj.
+      rewrite (nth_concat_rows _ nr) by (try exact HR; try rewrite transpose_rows_length; lia).
+      change (ent z (transpose_rows z (unflatten c nr nc) nc) i j = nth (j * nc + i) c z).
+      rewrite ent_transpose by auto. apply ent_unflatten; auto.
+  Qed.
 
   Lemma matmul_blocked_zero_block a b ra rb ta tb :
     matmul_blocked O a b ra rb ta tb 0 = None.
-  Admitted.
+  Proof.
+    unfold matmul_blocked.
+    destruct (operands O a b ra rb ta tb) as [[[[A B] l] n]|]; reflexivity.
+  Qed.
 
   (** acceptance and rejection, and every entry, against the flat-array definition *)
   Lemma matmul_spec a b ra rb ta tb :
@@ -49,7 +559,24 @@ Section Proofs.
         exists c, matmul O a b ra rb ta tb = Some c /\
                   is_product O (ta && tb) a b ca cb ta tb m l n c
     end.
-  Admitted.
+  Proof.
+    destruct (ta && tb) eqn:Htt.
+    - apply andb_true_iff in Htt. destruct Htt; subst ta tb.
+      pose proof (matmul_nt_spec b a rb ra false false) as H.
+      unfold matmul. cbn [andb].
+      rewrite dims_is_matrix in *. unfold dims' in *.
+      destruct (is_matrix (length a) ra) as [ca|] eqn:Ha; cbn [bind] in *;
+        destruct (is_matrix (length b) rb) as [cb|] eqn:Hb; cbn [bind] in *; try reflexivity.
+      rewrite (Nat.eqb_sym cb ra) in H.
+      destruct (Nat.eqb_spec ra cb) as [Hg|Hg]; cbn [guard bind] in *.
+      + destruct H as (c & Hc & Hlen & Hent). rewrite Hc. cbn [bind].
+        apply is_matrix_some in Hb. destruct Hb as [Hrb Hb].
+        destruct (transpose_spec c rb ca Hrb Hlen) as (t & Ht & Htl & Hte).
+        exists t. split; [exact Ht|]. split; [exact Htl|].
+        intros i j Hi Hj. rewrite Hte, Hent by auto. subst ra. reflexivity.
+      + rewrite H. reflexivity.
+    - unfold matmul. rewrite Htt. apply matmul_nt_spec.
+  Qed.
 
   Lemma matmul_blocked_spec a b ra rb ta tb bs :
     1 <= bs ->
@@ -59,5 +586,27 @@ Section Proofs.
         exists c, matmul_blocked O a b ra rb ta tb bs = Some c /\
                   is_product O false a b ca cb ta tb m l n c
     end.
-  Admitted.
+  Proof. intros Hbs. rewrite matmul_blocked_eq_nt by auto. apply matmul_nt_spec. Qed.
+
+  (** the blocked product equals the plain one for every block size; when both operands are
+      transposed the plain routine goes through (B.A)^T, so each product's factors are commuted *)
+  Lemma matmul_blocked_eq a b ra rb ta tb bs :
+    1 <= bs -> (ta && tb = true -> forall x y, mul O x y = mul O y x) ->
+    matmul_blocked O a b ra rb ta tb bs = matmul O a b ra rb ta tb.
+  Proof.
+    intros Hbs Hcomm. destruct (ta && tb) eqn:Htt.
+    - pose proof (matmul_spec a b ra rb ta tb) as H1.
+      pose proof (matmul_blocked_spec a b ra rb ta tb bs Hbs) as H2.
+      destruct (dims (length a) (length b) ra rb ta tb) as [[[[[ca cb] m] l] n]|]; [|congruence].
+      destruct H1 as (c1 & Hc1 & Hl1 & He1), H2 as (c2 & Hc2 & Hl2 & He2).
+      rewrite Hc1, Hc2. f_equal. apply (nth_ext _ _ z z); [congruence|].
+      intros p Hp. rewrite Hl2 in Hp.
+      assert (Hn : n <> 0) by (intros ->; lia).
+      assert (Hi : p / n < m) by (apply Nat.div_lt_upper_bound; lia).
+      assert (Hj : p mod n < n) by (apply Nat.mod_upper_bound; auto).
+      replace p with (p / n * n + p mod n) by (pose proof (Nat.div_mod p n Hn); lia).
+      rewrite He1, He2 by auto. rewrite Htt.
+      apply sumk_ext. intros k Hk. apply Hcomm. reflexivity.
+    - rewrite matmul_blocked_eq_nt by auto. unfold matmul. rewrite Htt. reflexivity.
+  Qed.
 End Proofs.
